@@ -122,8 +122,7 @@ claims = {
   ref="§6 C16", category="other"),
  "C17": dict(
   text="Panic clause, decided mechanically on the SSA: both OpenAPI accessors of kit.JApi run the conversion under a deferred module function that calls recover() and "
-       "stores the error result (recover-at-boundary), and every error value the exporter builds has exactly the dynamic type its panicking type assertion expects "
-       "(error-dynamic-type). Structural clauses that are plain Go, proved by SMT: a path item, once stored in paths, is never replaced (closure of fillPaths) and "
+       "stores the error result (recover-at-boundary). Structural clauses that are plain Go, proved by SMT: a path item, once stored in paths, is never replaced (closure of fillPaths) and "
        "assignOperation fills the slot of its method, so every HTTP interaction lands in paths[path][method]; same-code responses are all kept (newResponseAnyOf); every "
        "property of a query/path/header schema yields one declared parameter (paramsFromJSchema). A failed obligation is replayed by exporting built-in and testdata documents "
        "with the real code (thorough always runs this bounded cross-check over 600 documents; it found D23). $ref resolution and response keys are produced inside "
